@@ -52,6 +52,21 @@ RoundSpecial(s, w, j) == s[1] = s[2] \/ s[2] = s[3] \/ s[1] = s[3] \/ s[5] = s[6
 RECURSIVE CoinR(_, _, _)
 CoinR(s, w, j) == IF j > 63 THEN FALSE ELSE (j >= 16 /\ RoundSpecial(s, w, j)) \/ CoinR(Round(s, w, j), w, j + 1)
 InternalCoincidence(block64) == CoinR(IV, Expand(WordsOf(block64, 0)), 0)
+\* ---- a second classification: does ROUND 0 of the compression of a block (from chaining value v) feed one of the permutations a SPECIAL word --
+\*      TT2 (the argument of P0), TT1 (the new A), or the argument of P1 in the first expanded word W_16 --, special meaning 0, a power of two, or
+\*      a power of two plus / minus one (incl. ff..f)?  Such blocks are SOLVED for by PlanSM3 (round 0 is linear in W_0 / W_4). ----
+Pow16 == {1, 2, 4, 8, 16, 32, 64, 128, 256, 512, 1024, 2048, 4096, 8192, 16384, 32768}
+IsPow2W(x) == (x[1] = 0 /\ x[2] \in Pow16) \/ (x[2] = 0 /\ x[1] \in Pow16)
+SpecialW(x) == x = <<0,0>> \/ IsPow2W(x) \/ IsPow2W(WAdd(x, <<0,1>>)) \/ IsPow2W(WAdd(x, <<65535,65535>>)) \/ x = <<65535,65535>>
+WSub(a, b) == WAdd3(a, WNot(b), <<0,1>>)
+SS1Of(v) == WRotl(WAdd3(WRotl(v[1], 12), v[5], T(0)), 7)
+TT2C(v) == WAdd3(GG(v[5], v[6], v[7], 0), v[8], SS1Of(v))                         \* TT2 = TT2C + W_0
+TT1C(v) == WAdd3(FF(v[1], v[2], v[3], 0), v[4], WXor(SS1Of(v), WRotl(v[1], 12)))   \* TT1 = TT1C + (W_0 xor W_4)
+P1Arg16(w) == WXor3(w[1], w[8], WRotl(w[14], 15))
+Round0Special(v, w) == SpecialW(WAdd(TT2C(v), w[1])) \/ SpecialW(WAdd(TT1C(v), WXor(w[1], w[5]))) \/ SpecialW(P1Arg16(w))
+\* message of 64 bytes (first block) or 128 bytes (second block, chaining value after the first)
+CraftedValue(m) == IF Len(m) = 64 THEN Round0Special(IV, WordsOf(m, 0))
+                   ELSE IF Len(m) = 128 THEN Round0Special(CF(IV, m, 0), WordsOf(m, 64)) ELSE FALSE
 \* ---- padding (standard): bit "1", k zero bits with l+1+k = 448 mod 512, 64-bit length ----
 \* byte level: 0x80, z zero bytes with (len+1+z) = 56 mod 64, eight length bytes.
 \* The length is given as lhi*2^24 + llo (llo < 2^24) so that bit lengths >= 2^32 are expressible in 32-bit TLC integers.
